@@ -122,7 +122,7 @@ def gen_helper(r, py):
         k = r.randint(0, min(dim, 12))
         idx = sorted(r.sample(range(dim), k))
         # values exactly representable in float32; includes cancelling / zero products
-        dat = [float(r.choice([-2, -1, 1, 1, 2, 3, 0.5, 0.25])) for _ in idx]
+        dat = [float(r.choice([-2, -1, 1, 1, 2, 3, 0.5, 0.25, 0.0])) for _ in idx]  # explicit zeros are legal in a sparse encoding
         return idx, dat
     i1, d1 = one()
     i2, d2 = one()
@@ -173,6 +173,22 @@ def check_case(ctx, case):
         y = np.array(case["y"], dtype=np.float64)
         x0, y0 = x.copy(), y.copy()
         mass = min(x.sum(), y.sum())
+        # kantorovich1d with its order parameter p (Minkowski-p distance between the CDFs)
+        cx, cy = np.cumsum(x0 / x0.sum()), np.cumsum(y0 / y0.sum())
+        for pp in (2, 3, 4, 2.5):
+            dk, ek = _call(D.kantorovich1d, x.copy(), y.copy(), pp)
+            dk2, ek2 = _call(D.kantorovich1d, y.copy(), x.copy(), pp)
+            ctx.count("kantorovich_orders")
+            if ek or ek2:
+                viol("kantorovich1d", "raises/p=%s" % pp, ek or ek2)
+                continue
+            refk = float(np.sum(np.abs(cx - cy) ** pp) ** (1.0 / pp))
+            if not np.isfinite(dk) or dk < -1e-12:
+                viol("kantorovich1d", "not-finite-or-negative/p>2" if pp > 2 else "not-finite-or-negative/p=2", {"p": pp, "d": dk})
+            elif abs(dk - dk2) > 1e-9 * max(1.0, abs(dk)):
+                viol("kantorovich1d", "asymmetric/p>2" if pp > 2 else "asymmetric/p=2", {"p": pp, "d(x,y)": dk, "d(y,x)": dk2})
+            elif abs(dk - refk) > 1e-9 * max(1.0, refk):
+                viol("kantorovich1d", "differs-from-minkowski-of-cdfs/p>2" if pp > 2 else "differs-from-minkowski-of-cdfs/p=2", {"p": pp, "d": dk, "expected": refk})
         for name, f in dense_fns.items():
             dxy, e1 = _call(f, x, y)
             dyx, e2 = _call(f, y, x)
